@@ -222,16 +222,20 @@ def parser_state_rules(ctx):
               "every Ok path of end_testcase flushes the parser state or resets the parsed exit code (%d flush, %d reset site(s))" % (len(flushes), len(resets)),
               "end_testcase can return Ok without flush() and without resetting `%s`: the exit code line of a block without a command is carried over "
               "into the next test case (a following `$ false` without `[n]` is reported as succeeded)" % f_exit)
-    # flush itself clears the exit code
-    fl = prog.fn("LineParser::flush")
-    ofl = Origins(fl)
-    cleared = False
-    for bi, blk in enumerate(fl.blocks):
-        for st in blk["stmts"]:
-            if st["k"] == "assign" and [p_.get("n") for p_ in st["lhs"]["p"] if isinstance(p_, dict)][-1:] == [f_exit]:
-                n = peel(ofl.rvalue(st["rv"]))
-                cleared = cleared or (n.kind == "agg" and str(n.a[0]).endswith("None"))
-    ctx.check(cleared, "flush-clears-exit-code", fl.where(), "flush() resets the exit code")
+    # a flush helper, where it exists, clears the exit code (when it was inlined into end_testcase the stores are counted as resets above)
+    fls = prog.find_fns("LineParser::flush")
+    if fls:
+        fl = fls[0]
+        ofl = Origins(fl)
+        cleared = False
+        for bi, blk in enumerate(fl.blocks):
+            for st in blk["stmts"]:
+                if st["k"] == "assign" and [p_.get("n") for p_ in st["lhs"]["p"] if isinstance(p_, dict)][-1:] == [f_exit]:
+                    n = peel(ofl.rvalue(st["rv"]))
+                    cleared = cleared or (n.kind == "agg" and str(n.a[0]).endswith("None"))
+        ctx.check(cleared, "flush-clears-exit-code", fl.where(), "flush() resets the exit code")
+    else:
+        ctx.check(bool(resets), "flush-clears-exit-code", e.where(), "end_testcase resets the exit code itself (no flush helper)")
 
 
 def r7_3(ctx):
@@ -244,25 +248,21 @@ def r7_3(ctx):
     et = _call(f, "LineParser::end_testcase")
     # after add_testcase_body (Ok path) the next LineParser call is set_testcase_config(default_cram())
     engine_calls = {bb: (callee_name(t) or "").split("::")[-1] for bb, t in f.calls() if "LineParser::" in (callee_name(t) or "")}
+    # path-sensitive walk (a helper that was inlined returns `Err` through the caller's `?`: that path leaves, it does not continue the loop);
+    # parser calls are the frontier: nothing behind them is explored
     nxt = set()
-    todo = [f.blocks[ab]["term"]["target"]]
-    seen = set()
-    while todo:
-        b = todo.pop()
-        if b in seen:
-            continue
-        seen.add(b)
-        if b in engine_calls:
+    sinks = [(cb, s2) for cb in engine_calls for s2 in f.succ(cb)]
+    start = f.blocks[ab]["term"]["target"]
+    reached = explore(f, start, removed_edges=sinks)
+    rets = set(f.return_blocks())
+    tails = {b_ for b_, _h in back}
+    for b in reached:
+        if b in engine_calls and b != ab:
             nxt.add(engine_calls[b])
-            continue
-        if b in {r for r in f.return_blocks()}:
+        elif b in rets:
             nxt.add("return")
-            continue
-        for s in f.succ(b):
-            if (b, s) in back:
-                nxt.add("next-iteration")
-                continue
-            todo.append(s)
+        elif b in tails:
+            nxt.add("next-iteration")
     ctx.check(nxt <= {"set_testcase_config", "return"} and "set_testcase_config" in nxt, "config-after-every-body-line", f.loc(ab),
               "every body line is followed by set_testcase_config(..) before any other parser call (the only other exit is the `?` error return)",
               "after add_testcase_body the next parser interactions are %s: a test case can be pushed without the Cram defaults" % sorted(nxt))
@@ -277,21 +277,35 @@ def r7_3(ctx):
     # flush is the only writer of config = None and only called from end_testcase after the push
     lp_bodies = [b for b in prog.bodies if b.promoted is None and b.impl_self and b.impl_self.endswith("LineParser")]
     writers = []
+    f_cfg = prog.field_by_type("LineParser", "Option<TestCaseConfig>", "config")
     for b in lp_bodies:
         ob = Origins(b)
         for bi, blk in enumerate(b.blocks):
+            if blk["cleanup"]:
+                continue
             for st in blk["stmts"]:
-                if st["k"] == "assign" and [p["n"] for p in st["lhs"]["p"] if isinstance(p, dict) and "n" in p][-1:] == ["config"]:
+                if st["k"] == "assign" and [p["n"] for p in st["lhs"]["p"] if isinstance(p, dict) and "n" in p][-1:] == [f_cfg]:
                     v = peel(ob.rvalue(st["rv"]))
                     if v.kind == "agg" and v.a[0] == "Option::None":
-                        writers.append(b.name)
-    ctx.check(sorted(set(writers) - {"new"}) == ["flush"], "config-reset-sites", "-", "LineParser.config is reset to None only in new() and flush()", "config = None written in %s" % sorted(set(writers)))
+                        writers.append((b, bi))
     e = prog.fn("LineParser::end_testcase")
-    fl = _call(e, "LineParser::flush")
     pushes = [bb for bb, t in e.calls() if mname(t) == "Vec::push"]
-    callers = sorted({b.name for b in prog.bodies if b.promoted is None for bb, t in b.calls() if (callee_name(t) or "").endswith("LineParser::flush")})
-    ctx.check(len(fl) == 1 and len(pushes) == 1 and e.dominates(pushes[0], fl[0][0]) and callers == ["end_testcase"], "flush-after-push", e.where(),
-              "flush() is called only by end_testcase, after the TestCase was pushed")
+    # the configuration is reset only after the TestCase was pushed: directly in end_testcase behind the push, or in a helper (flush) that
+    # only end_testcase calls, behind the push
+    bad_sites = []
+    for b, bi in writers:
+        if b.name == "new":
+            continue
+        if b is e:
+            if not (len(pushes) == 1 and e.dominates(pushes[0], bi)):
+                bad_sites.append("end_testcase@%s" % e.loc(bi))
+            continue
+        callers = [(c, cb) for c in prog.bodies if c.promoted is None for cb, ct in c.calls() if ct.get("resolved_local") and ct.get("resolved") == b.path]
+        if not callers or not all(c is e and len(pushes) == 1 and e.dominates(pushes[0], cb) for c, cb in callers):
+            bad_sites.append("%s (called from %s)" % (b.name, sorted({c.name for c, _ in callers})))
+    ctx.check(bool(writers) and not bad_sites, "config-reset-sites", "-", "LineParser.%s is reset to None only in new() and behind the TestCase push of end_testcase (directly or through a helper only it calls)" % f_cfg,
+              "%s = None written at %s: a test case can be pushed after its configuration was dropped" % (f_cfg, bad_sites))
+    ctx.check(len(pushes) == 1, "flush-after-push", e.where(), "end_testcase pushes exactly one TestCase; the state reset follows it")
     # LineParser::new(.., true) and the returned document config
     nw = _call(f, "LineParser::new")
     ctx.check(len(nw) == 1 and peel(o.operand(nw[0][1]["args"][1])).kind == "const" and peel(o.operand(nw[0][1]["args"][1])).a.as_bool() is True, "multiple-commands", f.where(),
